@@ -61,6 +61,44 @@ def check_marker_flow(ctx, fx, rule, variant, floor):
     return good_fns
 
 
+def entry_hit(ctx, fx, e, marker_fns, entries, what="Stop"):
+    """the entry's own code (async fn: its coroutine) must, before its first suspension, either construct the marker and hand it
+    to the forcing closure, or call a function that does (another entry point, a helper on the same handle, a provided
+    method of the forcing trait)"""
+    fam = graph.family(fx, e)
+    code = [f for f in fam if f["kind"] == "coroutine"] or [fam[0]]
+    hit = None
+    for f in code:
+        b = ctx.body(fx, f)
+        pre = first_await_or_end(b)
+        for bi in sorted(pre):
+            t = b.term(bi)
+            if t["k"] != "call":
+                continue
+            c = t.get("resolved") or t.get("callee")
+            if t.get("trait") == FORCE_TRAIT and f["def"] in marker_fns:
+                hit = (f["def"], t["l"], "ForceTxFn::send(Payload::%s)" % what)
+            elif (c in VIA_HELPERS or t.get("callee") in VIA_HELPERS) and f["def"] in marker_fns:
+                hit = (f["def"], t["l"], "hands Payload::%s to the forcing closure through %s" % (what, c))
+            elif c in marker_fns or (t.get("callee") in marker_fns):
+                hit = (f["def"], t["l"], "calls " + c)
+            elif c in entries and c != e:
+                hit = (f["def"], t["l"], "calls " + c)
+            else:
+                # a synchronous helper on the same handle that requests the stop (`self.stop_and_join()?`)
+                h = fx.callee_fn(t)
+                if h is not None and h["kind"] in ("fn", "assoc_fn") and not h.get("is_async") and h["def"] not in entries:
+                    for _hb, ht in ctx.body(fx, h).normal_calls():
+                        hc = ht.get("resolved") or ht.get("callee")
+                        if hc in marker_fns or ht.get("callee") in marker_fns or (hc in entries and hc != e):
+                            hit = (f["def"], t["l"], "calls %s, which calls %s" % (c, hc))
+            if hit:
+                break
+        if hit:
+            break
+    return hit
+
+
 class SubmitOnOk(nfa.Spec):
     """a stop / restart entry point reports Ok only after its marker was accepted by the forcing closure (or by the entry
     point it delegates to); a path that answers Ok without submitting silently drops the request"""
@@ -180,46 +218,15 @@ def run(ctx):
     ctx.assumptions = ["futures-channel mpsc is a linearizable FIFO (Stop is ordered behind everything enqueued before)", "Shared<oneshot::Receiver> caches its output for clones made after completion"]
     fx = ctx.facts("tokio")
     # R04.1 marker flow + entry points
-    stop_fns = check_marker_flow(ctx, fx, "R04.1", "Stop", 2)
+    stop_fns = check_marker_flow(ctx, fx, "R04.1", "Stop", 1)  # every entry point below must reach one
     present = [e for e in STOP_ENTRIES if fx.fn(e)]
     ctx.floor("R04.1", "stop entry points", len(present), 7)
     for e in STOP_ENTRIES:
         if not fx.fn(e):
             ctx.viol("R04.1", "entry:" + e, "stop entry point not found (renamed or removed public API)")
             continue
-        # the entry's own code (async fn: its coroutine) must, before its first suspension, either construct the marker
-        # or call a function that does
         fam = graph.family(fx, e)
-        code = [f for f in fam if f["kind"] == "coroutine"] or [fam[0]]
-        hit = None
-        for f in code:
-            b = ctx.body(fx, f)
-            pre = first_await_or_end(b)
-            for bi in sorted(pre):
-                t = b.term(bi)
-                if t["k"] != "call":
-                    continue
-                c = t.get("resolved") or t.get("callee")
-                if t.get("trait") == FORCE_TRAIT and f["def"] in stop_fns:
-                    hit = (f["def"], t["l"], "ForceTxFn::send(Payload::Stop)")
-                elif (c in VIA_HELPERS or t.get("callee") in VIA_HELPERS) and f["def"] in stop_fns:
-                    hit = (f["def"], t["l"], "hands Payload::Stop to the forcing closure through " + c)
-                elif c in stop_fns or (t.get("callee") in stop_fns):
-                    hit = (f["def"], t["l"], "calls " + c)
-                elif c in STOP_ENTRIES and c != e:
-                    hit = (f["def"], t["l"], "calls " + c)
-                else:
-                    # a synchronous helper on the same handle that requests the stop (`self.stop_and_join()?`)
-                    h = fx.callee_fn(t)
-                    if h is not None and h["kind"] in ("fn", "assoc_fn") and not h.get("is_async") and h["def"] not in STOP_ENTRIES:
-                        for _hb, ht in ctx.body(fx, h).normal_calls():
-                            hc = ht.get("resolved") or ht.get("callee")
-                            if hc in stop_fns or ht.get("callee") in stop_fns or (hc in STOP_ENTRIES and hc != e):
-                                hit = (f["def"], t["l"], "calls %s, which calls %s" % (c, hc))
-                if hit:
-                    break
-            if hit:
-                break
+        hit = entry_hit(ctx, fx, e, stop_fns, STOP_ENTRIES)
         # the waiting path must not be used to stop
         uses_waiting = False
         for f in fam:
